@@ -188,3 +188,78 @@ def c14_delete_releases_reservations(ctx, v):
         n += 1
     v.covers_total += 1
     v.covers_sat += 1 if n else 0
+
+
+def c14_delete_recomputes_work(ctx, v):
+    """(a) Mempool::delete_transactions from a pool of two transactions P, Q (arbitrary stale
+    counter) and a block confirming a transaction with an arbitrary signature (possibly P's, Q's
+    or neither): afterwards routing_work_in_mempool is exactly the sum of total_work_for_me over
+    the transactions still pooled.  (b) In Blockchain::remove_block_transactions no removal from
+    the pool (the retain re-validation) happens after the last delete_transactions, so the
+    counter is exact when the function returns — the value can_bundle_block compares with the
+    burn-fee requirement."""
+    body = ctx.body(r"mempool::<impl at [^>]*>::delete_transactions$")
+    ex = ctx.executor(loop_bound=5, inline="auto", no_inline=[r"GoldenTicket::deserialize_from_net$"])
+    sigs = [ex.fresh_value("[u8; 64]", "pooled%d.sig" % i) for i in range(2)]
+    works = [ex.fresh_value("u64", "pooled%d.work" % i) for i in range(2)]
+    txs = [ctx.mk_struct(ex, "Transaction", "pooled%d" % i, signature=sigs[i], total_work_for_me=works[i]) for i in range(2)]
+    pmap = S.MapV("transactions", [[z3.BoolVal(True), sigs[i], txs[i]] for i in range(2)])
+    rw = ex.fresh_value("u64", "routing_work_in_mempool")
+    pool = ctx.mk_struct(ex, "Mempool", "mempool", transactions=pmap, routing_work_in_mempool=rw)
+    csig = ex.fresh_value("[u8; 64]", "confirmed.sig")
+    ctype = ex.fresh_value("TransactionType", "confirmed.type")
+    ctx_ = ctx.mk_struct(ex, "Transaction", "confirmed", signature=csig, transaction_type=ctype)
+    SUPPLY = 7 * 10**17
+    st = S.State()
+    st.pc.extend([z3.ULE(w.bv, SUPPLY) for w in works] + [z3.Not(value_eq(ex, sigs[0], sigs[1])), L.enum_in_range(ctype, L.TX_TYPES), z3.Not(L.enum_is(ctx, ctype, "TransactionType", "GoldenTicket"))])
+    outs = ex.run(body, [S.Ref(S.Cell(pool), (), True), S.Ref(S.Cell(S.Seq([ctx_], "Transaction")))], st)
+    v.paths += len(outs)
+    n = 0
+    for o in outs:
+        if o.kind in ("unsupported", "unwound", "path-limit"):
+            return v.undecided("%s %s" % (o.kind, o.info))
+        if o.kind == "panic":
+            v.queries += 1
+            if ex.feasible(o.pc):
+                v.fail("delete_transactions panics: %s" % o.info)
+            continue
+        if o.kind != "return":
+            continue
+        post = ex.deref_value(o.state.frames[0].locals["_1"].v)
+        ptxs = post.fields[ctx.field_index("Mempool", "transactions")]
+        cnt = post.fields[ctx.field_index("Mempool", "routing_work_in_mempool")]
+        total = z3.BitVecVal(0, 64)
+        for p, k, cell in ptxs.entries:
+            t = cell.v if isinstance(cell, S.Cell) else cell
+            total = total + z3.If(p, t.fields[ctx.field_index("Transaction", "total_work_for_me")].bv, z3.BitVecVal(0, 64))
+        r, m = ex.model_for(o.pc, cnt.bv != total)
+        v.queries += 1
+        if r == z3.sat:
+            v.fail("after delete_transactions the routing work counter (%d) is not the sum of the work of the transactions still pooled (%d)" %
+                   (m.eval(cnt.bv, model_completion=True).as_long(), m.eval(total, model_completion=True).as_long()))
+        else:
+            n += 1
+    v.covers_total += 1
+    v.covers_sat += 1 if n else 0
+    # (b) ordering in remove_block_transactions
+    body = ctx.body(r"blockchain::<impl at [^>]*>::remove_block_transactions$")
+    ex = ctx.executor(loop_bound=3)
+    ex.pure = [r".*"]
+    outs = ex.run(body, [S.Ref(S.Cell(S.Opaque("blockchain", "Blockchain"))), S.Ref(S.Cell(ex.fresh_value("[u8; 32]", "block_hash"))), S.Ref(S.Cell(S.Opaque("mempool", "Mempool")), (), True)])
+    v.paths += len(outs)
+    m2 = 0
+    for o in outs:
+        if o.kind in ("unsupported", "unwound", "path-limit"):
+            return v.undecided("%s %s" % (o.kind, o.info))
+        if o.kind != "return":
+            continue
+        v.queries += 1
+        calls = [e[1] for e in o.events if e[0] == "call"]
+        dele = [i for i, c in enumerate(calls) if re.search(r"Mempool::delete_transactions$", c)]
+        removal = [i for i, c in enumerate(calls) if re.search(r"(?:AHashMap|HashMap)::<\[u8; 64\], Transaction[^>]*>::(retain|remove|clear|drain)", c)]
+        if dele and removal and max(removal) > max(dele):
+            v.fail("remove_block_transactions removes pooled transactions after the routing work counter was recomputed (delete_transactions): the counter keeps the work of transactions no longer pooled")
+        elif dele:
+            m2 += 1
+    v.covers_total += 1
+    v.covers_sat += 1 if m2 else 0
